@@ -315,7 +315,7 @@ def concretize_front_item(prog, pr, model):
             elif part == 'STRUCT':
                 cells += [('I', 'struct'), ('I', 'Y'), ('P', ';')]
             else:
-                cells += front.sym_item_segments('it.' + part, 'reduced' if part.startswith('r') else 'full')
+                cells += front.sym_item_segments('it.' + part, 'reduced' if part.startswith('r') else ('single-fn' if part.startswith('s') else 'full'))
         front.expand_segments(ex2, cells, 10 ** 6)
     else:
         cells = front.sym_item_tokens('t', info['n'])
